@@ -612,7 +612,7 @@ func (g *gen) c07Case(p *plan, v pathVar, idx int, qv, bv string, ex c07Extra) (
 	return c, nil
 }
 
-const ruleC07 = "every rule of the C03 catalogue with at least one path variable (vf.Req, ComplexRequest and the real larking.testpb annotations incl. Files.UploadDownload; top-level, nested and doubly nested fields; typed, enum, oneof and well-known-type variables; body '*', body <field>, no body). For every variable and several captures: competing, different values for the same field through the query string (proto name, JSON name, the key twice, before / after another key) and / or the body (JSON, protobuf, gzip JSON; body '*' or a body field that contains the variable), all combinations. In addition, for every variable on a nested field: 1-3 query parameters on same-typed sibling sub-messages (vf.Req sub / osub, ComplexRequest nested / oneof_nested; the sibling's field of the same name first) before / after the competing key, x query x body competitors; and for every variable: a repeated query field of 10, 63, 64, 65, 200, 1000 elements next to the competitors. These requests are served 4 times each (query parameters are applied in map order). Oracle: the handler's value of the field equals the protojson value of the path capture, and - for the cases with non-competing parameters on rules without body '*' - the whole message equals the capture(s) plus every parameter the client sent; a request rejected with an error status is allowed. Streaming HTTP rules (HttpBody uploads on client-streaming and bidi methods incl. the real Files.LargeUploadDownload, server-streaming downloads) run the query matrix with every way the handler can obtain the first message (stream.Recv looping to EOF, larking.AsHTTPBodyReader; replies through stream.Send and larking.AsHTTPBodyWriter). The body competitor also comes as application/x-www-form-urlencoded (with / without charset), multipart/form-data, text/plain and application/json; charset=utf-8: whatever the tree accepts must not override the path, a refusal is no claim. Also 13, 14, 20 and 40 URL parameters on distinct keys (one naming the bound field), each request served 20 times. The catalogue includes constant variables ({f=lit}, {f=lit/lit}, typed {f=true}, {e=RED}, the real Messaging.Action {text=action}) and variables of every scalar kind and bytes (top-level and nested) on rules that map a body; bytes captures are spelled std / url-safe, padded / unpadded; bodies carry the competing value or do not name the field at all, with fillers of 0-6000 bytes. WebSocket transport (real loopback listener through larking.NewServer): websocket-kind bindings on bidi methods (vf.Req top-level / nested / typed / bytes / multi-segment variables, body '*' and body field; the real testpb ChatRoom.Chat) with the competing value in the query string, in the first frame and / or in later frames (1-3 frames, each acknowledged by the handler): the first message the handler receives must carry the capture. distinct = (rule, variable, query variant, body variant, sibling / list-size variant | websocket frame variant) of dispatched requests that kept the capture"
+const ruleC07 = "every rule of the C03 catalogue with at least one path variable (vf.Req, ComplexRequest and the real larking.testpb annotations incl. Files.UploadDownload; top-level, nested and doubly nested fields; typed, enum, oneof and well-known-type variables; body '*', body <field>, no body). For every variable and several captures: competing, different values for the same field through the query string (proto name, JSON name, the key twice, before / after another key) and / or the body (JSON, protobuf, gzip JSON; body '*' or a body field that contains the variable), all combinations. In addition, for every variable on a nested field: 1-3 query parameters on same-typed sibling sub-messages (vf.Req sub / osub, ComplexRequest nested / oneof_nested; the sibling's field of the same name first) before / after the competing key, x query x body competitors; and for every variable: a repeated query field of 10, 63, 64, 65, 200, 1000 elements next to the competitors. These requests are served 4 times each (query parameters are applied in map order). Oracle: the handler's value of the field equals the protojson value of the path capture, and - for the cases with non-competing parameters on rules without body '*' - the whole message equals the capture(s) plus every parameter the client sent; a request rejected with an error status is allowed. Streaming HTTP rules (HttpBody uploads on client-streaming and bidi methods incl. the real Files.LargeUploadDownload, server-streaming downloads) run the query matrix with every way the handler can obtain the first message (stream.Recv looping to EOF, larking.AsHTTPBodyReader; replies through stream.Send and larking.AsHTTPBodyWriter). The body competitor also comes as application/x-www-form-urlencoded (with / without charset), multipart/form-data, text/plain and application/json; charset=utf-8: whatever the tree accepts must not override the path, a refusal is no claim. Also 13, 14, 20 and 40 URL parameters on distinct keys (one naming the bound field), each request served 20 times. The catalogue includes constant variables ({f=lit}, {f=lit/lit}, typed {f=true}, {e=RED}, the real Messaging.Action {text=action}) and variables of every scalar kind and bytes (top-level and nested) on rules that map a body; bytes captures are spelled std / url-safe, padded / unpadded; bodies carry the competing value or do not name the field at all, with fillers of 0-6000 bytes. Control frames (ping, unsolicited pong) are interleaved before the first and between data frames. WebSocket transport (real loopback listener through larking.NewServer): websocket-kind bindings on bidi methods (vf.Req top-level / nested / typed / bytes / multi-segment variables, body '*' and body field; the real testpb ChatRoom.Chat) with the competing value in the query string, in the first frame and / or in later frames (1-3 frames, each acknowledged by the handler): the first message the handler receives must carry the capture. distinct = (rule, variable, query variant, body variant, sibling / list-size variant | websocket frame variant) of dispatched requests that kept the capture"
 
 // RunC07 is the path-bound-fields-are-authoritative check.
 func RunC07(r *mon.Run) {
@@ -815,6 +815,12 @@ func wsRules() (dynamic []RuleSpec, real []RuleSpec) {
 
 const wsTimeout = 10 * time.Second
 
+// markers in Case.Frames for control frames
+const (
+	wsPing = "\x00control:ping"
+	wsPong = "\x00control:pong"
+)
+
 // execC07WS runs one precedence case over a real WebSocket connection: the
 // first message the handler receives must carry the path capture, whatever
 // the query string and the frames (first or later) say.
@@ -852,6 +858,18 @@ func execC07WS(e *env, c *Case) (o outcome) {
 	conn.SetDeadline(time.Now().Add(wsTimeout))
 	delivered := 0
 	for _, f := range c.Frames {
+		// control frames: a ping (the server answers with a pong, which the
+		// next read skips) or an unsolicited pong
+		if f == wsPing || f == wsPong {
+			fr := ws.NewPingFrame([]byte("vf"))
+			if f == wsPong {
+				fr = ws.NewPongFrame([]byte("vf"))
+			}
+			if err := ws.WriteFrame(conn, ws.MaskFrameInPlace(fr)); err != nil {
+				break
+			}
+			continue
+		}
 		if err := wsutil.WriteClientText(conn, []byte(f)); err != nil {
 			break
 		}
@@ -872,6 +890,16 @@ func execC07WS(e *env, c *Case) (o outcome) {
 		return
 	}
 	o.evals = len(c.Frames) - 1
+	ctl := ""
+	for i, f := range c.Frames {
+		if f == wsPing || f == wsPong {
+			ctl = ":control-frame-before-first-message"
+			if i > 0 {
+				ctl = ""
+			}
+			break
+		}
+	}
 	got := project(calls[0].msg, fds)
 	if !proto.Equal(got, exp) {
 		by := "other:" + kindClass(fds[len(fds)-1])
@@ -886,7 +914,7 @@ func execC07WS(e *env, c *Case) (o outcome) {
 				}
 			}
 		}
-		o.add("c07:path-bound-overridden:by="+by+":websocket", fmt.Sprintf("websocket rule %s body=%q: ws %s?%s, frames %q (competing %s): path-bound field %s was captured as %q but the first message the handler received has %s (whole message: %s)",
+		o.add("c07:path-bound-overridden:by="+by+":websocket"+ctl, fmt.Sprintf("websocket rule %s body=%q: ws %s?%s, frames %q (competing %s): path-bound field %s was captured as %q but the first message the handler received has %s (whole message: %s)",
 			c.Rule.Tmpl, c.Rule.Body, c.Req.Path, c.Req.RawQuery, c.Frames, c.Via, c.Field, c.Text, jsonOf(got), jsonOf(calls[0].msg)))
 		return
 	}
@@ -1026,6 +1054,23 @@ func runWS(r *mon.Run, g *gen) {
 						}
 						if c != nil {
 							apply(r, c, execCase(e, c))
+							// the same conversation with control frames interleaved
+							for ci, ctl := range [][2]string{{wsPing, "ping-first"}, {wsPong, "pong-first"}, {wsPing, "ping-between"}, {wsPong, "pong-between"}} {
+								if (k+ci)%2 == 1 && !r.Thorough() {
+									continue
+								}
+								c2 := *c
+								pos := 0
+								if strings.HasSuffix(ctl[1], "between") {
+									if len(c.Frames) < 2 {
+										continue
+									}
+									pos = 1
+								}
+								c2.Frames = append(append(append([]string(nil), c.Frames[:pos]...), ctl[0]), c.Frames[pos:]...)
+								c2.Via += ",control=" + ctl[1]
+								apply(r, &c2, execCase(e, &c2))
+							}
 						}
 					}
 				}
